@@ -36,7 +36,11 @@ pub fn get_num_cells(resolution: i32) -> u64 {
     }
 
     // For lower resolutions, exact calculation works fine
-    60 * (4_u64.pow((resolution - 1) as u32))
+    // Saturate instead of overflowing for resolutions beyond the supported range
+    4_u64
+        .checked_pow((resolution - 1) as u32)
+        .and_then(|cells_per_quintant| cells_per_quintant.checked_mul(60))
+        .unwrap_or(u64::MAX)
 }
 
 /// Returns the number of children between two resolutions.
